@@ -41,6 +41,7 @@ SHAPES = [
     "int a; int g = ({ int t = a; t; }); void f(void) { long l = ({ char c = 1; struct Q { int m; } q; q.m + c; }) + 1; int arr[({ int n = 2; n; })]; }",
     "int f(unknown_t a, T b) { return a + b - *a; } void g(U u) { u.m = 1; u(); u[0]; } int a[] = { 1, 2, { , } ;",
     "void s() { (b) & _Generic(1, int: 3); (c) * sizeof(struct W { int w; }); (d) - (int) { 1 }; u (v[sizeof(char)]); } }",
+    "enum { K = sizeof }; typedef int v = sizeof(int); typedef w[] = (_Generic(1, t: 1, g: 2), 3); typedef int u[_Alignof(struct Q { int q; })];",
     "", ";", "int", "int x", "struct", "typedef", "void f(", "int a[", "x y z;", "{ }", "= 3;", "int x = ;", "void f(void) { return", "enum E {", "struct S { int",
 ]
 
